@@ -129,3 +129,15 @@ reg("C02", "other",
     "0..5; record number = counter, content length per C18, running length += words + 4, type code = file type; records are "
     "contiguous (typestate W1-W3). Not decided: that an independent decoder recovers the same doubles (byteorder's bit "
     "semantics are trusted).", note=TRUST + "; spec/esri.json transcribed correctly from the whitepaper")
+reg("C03", "other",
+    "abstract layouts of the 13 record readers under both valuations of the optional-M atom (E2), linear size forms, "
+    "decision tables (E1), call-graph reachability (E3)",
+    "Independent oracle = spec/esri.json. Decided for all 14 codes, both optional layouts and all counts: each reader's abstract "
+    "layouts are exactly the ESRI layout with and (where optional) without the M block, every value landing in the field ESRI "
+    "assigns to that position and every repetition governed by the count read for it; the computed record sizes equal the ESRI "
+    "byte counts as linear forms and the M block is read exactly when the declared size equals the with-M size, rejected "
+    "exactly when it equals neither; absent measures are NO_DATA (created so, never stored), present ones pass through "
+    "max(v, NO_DATA); 14-way dispatch, null shape reads nothing, patch kind table 0..5 with InvalidPatchType otherwise; no "
+    "indexing/asserting constructor is reachable from the reader, the record number is ignored; sequential iteration stops "
+    "exactly at twice the declared length. Not decided: equality of decoded and encoded doubles; non-conformant input (C07).",
+    note=TRUST + "; spec/esri.json transcribed correctly from the whitepaper")
